@@ -69,6 +69,7 @@ func (fx *FuncCtx) invoke(st *State, cc *ssa.CallCommon, recv Val, args []Val, r
 		st.assume(t)
 	}
 	old := copyMap(st.heap)
+	topBefore := st.top()
 	if !fc.Pure {
 		fx.havocModifies(st, env, fc)
 		fx.bumpTop(st)
@@ -82,7 +83,7 @@ func (fx *FuncCtx) invoke(st *State, cc *ssa.CallCommon, recv Val, args []Val, r
 	if rt != nil && res.Tup == nil {
 		rs = []Val{res}
 	}
-	env2 := &SpecEnv{fx: fx, pkg: pkg, vars: map[string]Val{}, cur: st.heap, old: old, atlock: st.atlock, st: st, reveal: fx.reveal}
+	env2 := &SpecEnv{fx: fx, pkg: pkg, vars: map[string]Val{}, cur: st.heap, old: old, atlock: st.atlock, st: st, reveal: fx.reveal, entryTop: topBefore}
 	for k, v := range vars {
 		env2.vars[k] = v
 	}
